@@ -187,26 +187,35 @@ func (s *Session) verifyFunc(fn *ssa.Function, c *Contract) (vc *FnVC, err error
 			vc.note("callsite clause for " + cr.Callee + " matches no call")
 		}
 	}
-	// postconditions
-	post := exitSt.clone()
-	env := fr.specEnv(post, fr.oldState)
-	env.entryOnly = true
-	for i, rn := range c.Results {
-		if i < len(results) {
-			env.vars[rn] = Val{T: results[i], Typ: fn.Signature.Results().At(i).Type()}
+	// postconditions: proved per return statement, each in the state of that return (the merged exit state is a nest of
+	// if-then-else terms over the paths that only burdens the solver)
+	_ = exitSt
+	_ = results
+	for ri, r := range fr.rets {
+		post := r.st.clone()
+		env := fr.specEnv(post, fr.oldState)
+		env.entryOnly = true
+		for i, rn := range c.Results {
+			if i < len(r.vals) {
+				env.vars[rn] = Val{T: r.vals[i], Typ: fn.Signature.Results().At(i).Type()}
+			}
 		}
-	}
-	for _, g := range c.Ghosts {
-		if g.At == "return" {
-			fr.applyGhost(env, g)
+		for _, g := range c.Ghosts {
+			if g.At == "return" {
+				fr.applyGhost(env, g)
+			}
 		}
-	}
-	for k, e := range c.Ensures {
-		t, er := env.evalBool(e.E)
-		if er != nil {
-			return vc, fmt.Errorf("%s ensures %s: %v", c.Key, clauseName(e, k), er)
+		for k, e := range c.Ensures {
+			t, er := env.evalBool(e.E)
+			if er != nil {
+				return vc, fmt.Errorf("%s ensures %s: %v", c.Key, clauseName(e, k), er)
+			}
+			name := fmt.Sprintf("post:%s", clauseName(e, k))
+			if len(fr.rets) > 1 {
+				name = fmt.Sprintf("post:%s@ret%d", clauseName(e, k), ri+1)
+			}
+			vc.oblige(name, r.reach, t, e.Text, fn.Pos())
 		}
-		vc.oblige(fmt.Sprintf("post:%s", clauseName(e, k)), exitReach, t, e.Text, fn.Pos())
 	}
 	if s.probeFalse {
 		vc.oblige("probe:false", exitReach, tFalse, "vacuity probe: must NOT be provable", fn.Pos())
